@@ -499,12 +499,14 @@ class Agent(dbus.service.Object):
     @dbus.service.method(DBUS_IFACE, in_signature='ss', out_signature='')
     def recv_bundle_pop_file(self, bid, filepath):
         bid = int(bid)
-        item = self._rx_queue.pop(bid)
+        item = self._rx_queue[bid]
         item.file.seek(0)
 
         import shutil
-        out_file = open(filepath, 'wb')
-        shutil.copyfileobj(item.file, out_file)
+        with open(filepath, 'wb') as out_file:
+            shutil.copyfileobj(item.file, out_file)
+        # only a bundle which was written out is taken off the queue
+        self._rx_queue.pop(bid)
 
     def send_bundle_fileobj(self, file, tx_params):
         ''' Send bundle from a file-like object.
